@@ -48,7 +48,7 @@ TRAIL = ['SW/4', 'N2S2', 'W2E2', 'Lot 1', 'RoW 3',
          'described as follows', 'less and except the wellbore',
          'containing 40 acres, more or less', 'as shown on the plat', '']
 _SEP = ',;:-–—\t\n .'
-_CULL = re.compile(r'(\s+(the|all in|all of|of|in|and))+$', re.I)
+_CULL = re.compile(r'(\s+(the|all in|all of|all|of|in|and))+$', re.I)
 
 
 def plan(tier, seed):
